@@ -748,7 +748,46 @@ func (in *Interp) nativeArg(caller *frame, v Value) (interface{}, bool) {
 	return in.nativeOf(itf.T, itf.V)
 }
 
+// stringerOf: fmt calls Error()/String() on operands and on exported struct fields and
+// elements that implement them (handleMethods at every depth where the value is
+// interface-able); rendered here by interpreting the program's own method.
+func (in *Interp) stringerOf(t types.Type, v Value) (interface{}, bool, bool) {
+	if t == nil || in.fmtCaller == nil {
+		return nil, false, false
+	}
+	if _, named := t.(*types.Named); !named {
+		return nil, false, false
+	}
+	for _, m := range []string{"Error", "String"} {
+		f := in.findMethod(t, m)
+		if f == nil || f.Signature.Params().Len() != 0 || f.Signature.Results().Len() != 1 {
+			continue
+		}
+		if b, ok := f.Signature.Results().At(0).Type().Underlying().(*types.Basic); !ok || b.Kind() != types.String {
+			continue
+		}
+		if recv := f.Signature.Recv(); recv != nil {
+			if _, ptr := recv.Type().(*types.Pointer); ptr {
+				continue // pointer-receiver method: not in the method set of the value
+			}
+		}
+		r := in.call(in.fmtCaller, token.NoPos, f, []Value{v})
+		if s, ok := r.(string); ok {
+			return s, true, true
+		}
+		return "<sym>", false, true
+	}
+	return nil, false, false
+}
+
 func (in *Interp) nativeOf(t types.Type, v Value) (interface{}, bool) {
+	if in.fmtDepth > 0 {
+		if s, ok, has := in.stringerOf(t, v); has {
+			return s, ok
+		}
+	}
+	in.fmtDepth++
+	defer func() { in.fmtDepth-- }()
 	switch x := v.(type) {
 	case *Term:
 		if !x.IsConst() {
@@ -822,7 +861,12 @@ func (in *Interp) nativeOf(t types.Type, v Value) (interface{}, bool) {
 			if st != nil {
 				ft = st.Field(i).Type()
 			}
+			saved := in.fmtCaller
+			if st != nil && !st.Field(i).Exported() {
+				in.fmtCaller = nil // fmt does not call methods on unexported fields
+			}
 			e, ok := in.nativeOf(ft, f)
+			in.fmtCaller = saved
 			okAll = okAll && ok
 			parts = append(parts, fmt.Sprint(e))
 		}
@@ -839,6 +883,9 @@ func (in *Interp) nativeOf(t types.Type, v Value) (interface{}, bool) {
 }
 
 func (in *Interp) sprintf(caller *frame, format string, args Slice) Value {
+	in.fmtCaller = caller
+	in.fmtDepth = 0
+	defer func() { in.fmtCaller = nil }()
 	nat := make([]interface{}, args.Len)
 	exact := true
 	for i := 0; i < args.Len; i++ {
